@@ -82,6 +82,7 @@ type DeployCfg struct {
 	SP           scripted.Params   `json:"sp"`
 	SignSP       scripted.Params   `json:"signSp"`
 	PickUnsorted bool              `json:"pickUnsorted,omitempty"`
+	PickFixed    []uint16          `json:"pickFixed,omitempty"` // silent mode: members returned for every topic (truncated to the expected count)
 }
 
 type Deployment struct {
@@ -220,7 +221,16 @@ func (d *Deployment) buildNode(id uint16) {
 	send := w.SendFunc(id)
 	var p tss.MpcParty
 	if cfg.Silent {
-		p = threshold.SilentScheme(id, lg, kgf, sf, cfg.Threshold, send, d.membership, PickMembers(d.allConfigured(), cfg.PickUnsorted))
+		pick := PickMembers(d.allConfigured(), cfg.PickUnsorted)
+		if cfg.PickFixed != nil {
+			pick = func(topic []byte, expected int) []uint16 {
+				if expected > len(cfg.PickFixed) {
+					expected = len(cfg.PickFixed)
+				}
+				return append([]uint16(nil), cfg.PickFixed[:expected]...)
+			}
+		}
+		p = threshold.SilentScheme(id, lg, kgf, sf, cfg.Threshold, send, d.membership, pick)
 	} else {
 		p = threshold.LoudScheme(id, lg, kgf, sf, cfg.Threshold, send, d.membership)
 	}
